@@ -5,8 +5,8 @@ from .. import vlib
 TRUSTED = [
     "Lean 4.33 kernel; axioms per theorem under coverage.axioms (subset of propext, Classical.choice, Quot.sound)",
     "translate/eclio.py, translate/eclfile.py (seekPosition header sizes -> Gen/EclFile.lean)",
-    "harness/unrst.cpp + differ; the unformatted codec model of C07 (byte-exact correspondence there)",
-    "modelled, not verified: std::filesystem::resize_file / stream buffering / OS crash atomicity (crash model = file cut at byte k); the formatted data codec (formatted rewinds are decided by the header-length theorem + property mode on the real code)",
+    "harness/unrst.cpp + differ; the unformatted and formatted codec models of C07 (byte-exact correspondence there)",
+    "modelled, not verified: std::filesystem::resize_file / stream buffering / OS crash atomicity (crash model = file cut at byte k); snprintf digits of formatted REAL/DOUB (formatted histories of INTE/LOGI/CHAR arrays are proved and compared; REAL/DOUB formatted rewinds by property mode on the real code)",
 ]
 
 
